@@ -289,7 +289,7 @@ def run_session(case):
     elif case.get("patterns"):
         seqs = session.patterns()[case["patterns"][0]::case["patterns"][1]]
     else:
-        seqs = list(session.sequences(case["depth"], first=case.get("first")))
+        seqs = list(session.sequences(case["depth"], first=case.get("first"), ops=case.get("ops")))
         if case.get("shard"):
             seqs = seqs[case["shard"][0]::case["shard"][1]]
     for seq in seqs:
@@ -300,6 +300,8 @@ def run_session(case):
         res.trans += s.p.events
         res.traces += 1
         cc = dict(case, only=list(seq))
+        if s.failures:
+            res.bump("likelihood_failures_injected", s.failures)
         if s.err is not None:
             res.bump("aborted_sessions")
             res.bump("aborted:" + type(s.err).__name__)
@@ -319,17 +321,21 @@ FACTORS = [
     ("vv", [None, 0.5]),
     ("eval", ["vec", "scalar", "blobs", "poolobj_blobs"]),
     ("boundary", ["none", "per0", "ref1", "per0ref1", "sets"]),
-    ("prior", ["affine", "nonlinear"]),
+    ("prior", ["affine", "nonlinear", "affine-list", "affine-index", "identity-view"]),  # incl. a transform returning a list, one writing components by index, one handing back its argument
     ("target", ["gauss", "bimodal", "unequal", "sharp"]),
     ("cluster_every", [1, 3]),
     ("n_steps", [None, 3]),
     ("n_particles", [24, 12]),
     ("blob_dtype", [None, "int64", "float32", "int16"]),  # type of the scalar blob (only with blobs)
+    ("blob_form", [None, "two", "vector", "str"]),  # (logl, tag) | (logl, tag, 2 tag) | (logl, array of 3) | (logl, str) (only with blobs)
+    ("ll_return", [None, "np.float64", "0d", "readonly"]),  # spelling of the log-likelihood value: Python float | numpy scalar | 0-d array | read-only array (vectorised)
 ]
 
 
 def cfg_of(row):
-    c = {k: row[k] for k in ("sample", "resample", "vv", "eval", "boundary", "prior", "target", "cluster_every", "n_steps", "n_particles", "blob_dtype")}
+    c = {k: row[k] for k in ("sample", "resample", "vv", "eval", "boundary", "prior", "target", "cluster_every", "n_steps", "n_particles", "blob_dtype", "blob_form", "ll_return")}
+    if c["blob_form"] == "str":
+        c["blob_dtype"] = None
     c["n_total"] = 4 * row["n_particles"]
     clu = row["clu"]
     c["clustering"] = clu != "off"
@@ -359,6 +365,13 @@ def plan(ctx):
                 sess.append({"kind": "session", "cfg": cfg, "base": ctx.seed, "depth": 7 if th else 5, "shard": [sh, 32]})
         for sh in range(8):
             sess.append({"kind": "session", "cfg": cfg, "base": ctx.seed, "depth": 9, "patterns": [sh, 8]})
+    # iterations aborted by a failure of the user's likelihood at its 1st / 4th / 11th evaluation: every sequence over {S, X1, X4, X11}
+    from mc import session as _s
+    for cfg in (dict(n_particles=8, d=1, ess_ratio=1.0, n_total=10 ** 6, eval="blobs", clustering=False, resample="mult"),
+                dict(n_particles=8, d=2, ess_ratio=2.0, n_total=10 ** 6, eval="vec", clustering=True, resample="syst", sample="rwm"),
+                dict(n_particles=8, d=2, ess_ratio=1.0, n_total=10 ** 6, eval="scalar", clustering=True, resample="syst", sample="tpcn", target="hole")):
+        for sh in range(4):
+            sess.append({"kind": "session", "cfg": cfg, "base": ctx.seed, "depth": 4 if th else 3, "ops": _s.FAIL_OPS, "shard": [sh, 4]})
     ctx.explore("session-sequences", sess)
     ctx.bounds.update({"session": {"alphabet": ["S (iterate)", "V0/V1 (save_state to slot)", "L0/L1 (load_state from slot)"], "depth": "all sequences to depth 7 (thorough) / 5 (quick) + 57 longer save/branch/roll-back patterns (length <= 9)", "warm_iterations": 3}})
     rows = lattice.covering_array(FACTORS, strength=3 if th else 2, seed=ctx.seed)
